@@ -83,6 +83,22 @@ def run(ctx: Ctx) -> None:
         rk = risky(ctx, res, f_, f_.node.body)
         ctx.ob("C16.R1", f_, f"{f_.name} cannot raise by itself on any message", not rk, f"{rk[:3]}: a message that makes it raise (an unlisted error code, say) tears down the connection and with it the operations of all other peripherals")
     ctx.count("C16.R1.callbacks", n_cb, 4, "Bluetooth message callbacks")
+    # operations on different handles / addresses run side by side: the client does not queue them behind each other
+    # (a lock or semaphore around the request would delay an operation by another one's, and lose a response that
+    # arrives before its request was even subscribed)
+    serial = []
+    for f_ in ctx.repo.all_funcs():
+        if f_.cls is not client or "bluetooth" not in f_.name:
+            continue
+        for n in own_nodes(f_.node):
+            if isinstance(n, ast.AsyncWith):
+                for it in n.items:
+                    t = norm(it.context_expr)
+                    if not any(k in t for k in ("timeout", "interrupt")):
+                        serial.append(f"{f_.qualname} L{n.lineno}: async with {t[:40]}")
+            if isinstance(n, ast.Await) and isinstance(n.value, ast.Call) and isinstance(n.value.func, ast.Attribute) and n.value.func.attr in ("acquire", "wait"):
+                serial.append(f"{f_.qualname} L{n.lineno}: await {norm(n.value)[:40]}")
+    ctx.ob("C16.R2", "client:APIClient", "Bluetooth operations are not serialised behind a lock / semaphore / event", not serial, f"{serial[:3]}")
 
     # ------------------------------------------------------------------ R1
     def eq_atom(t: ast.AST, field: str, bound: str) -> bool | None:
